@@ -160,6 +160,19 @@ func podCrashSweep(e *hx.Env, r *hx.Report) {
 	r.Extra["pod_level_crash_experiments"] = r.Histogram["pod-crash-experiments"]
 }
 
+// largeCase: ~600 allocations in one /22 pool, then reload and restart: memory = store = what a freshly started process
+// reconstructs (a LIST limited to one page loses the rest).
+func (rn *runner) largeCase() {
+	s, conf := gi.LargeCase(600)
+	for _, op := range []gi.Op{{Kind: "conf", Conf: conf, Plan: gi.NoPlan()}, {Kind: "restart", Plan: gi.NoPlan()}} {
+		st := s.ExecOnly(op)
+		rn.Note(&st)
+		rn.monitor(s, &st)
+	}
+	rn.R.Hit("large-case:600-allocations-reload-restart")
+	rn.R.Evaluations++
+}
+
 func run(e *hx.Env) *hx.Report {
 	rn := &runner{gi.NewRunner(e, prop,
 		"a history is nontrivial when at least 3 of its moves succeeded and changed state; every op of every enumerated history is "+
@@ -180,6 +193,7 @@ func run(e *hx.Env) *hx.Report {
 		rn.retryHistory(length + 10)
 	}
 	rn.Flush()
+	rn.largeCase()
 	podCrashSweep(e, rn.R)
 	rn.R.Extra["fault_enumeration"] = "every store-call index 0..n+1 (fail), 0..n (crash before / after) of every op of every enumerated history, from the same prefix"
 	return rn.R
